@@ -1028,22 +1028,48 @@ def oracle_comments(ctx, rng):
     check_texts(ctx, [t for t, _ in CR_COMMENT_CASES] + cases, "comments")
 
 
+GLUED_PARSE_CASES = [("document", "{a(x:1b:2)}", "{a(x:1 b:2)}"), ("value", "[1a]", "[1 a]"), ("value", "[1.5e3x]", "[1.5e3 x]"),
+                     ("value", "[0xF]", "[0 xF]"), ("value", "{a:1b:2}", "{a:1 b:2}"), ("value", "[-0_]", "[-0 _]")]
+
+
 def oracle_number_lookahead(ctx, rng):
-    """the look-ahead restriction (pinned by test_useful_number_errors): a number lexeme directly followed by a
-    NameStart character is rejected — it is neither a longer number nor number + name."""
+    """June-2018 IntValue / FloatValue carry no look-ahead restriction: a number lexeme directly followed by a Name must
+    lex (and parse) like the same text with a space in between. The lexer rejects it instead ("Explicit lookahead
+    restrictions", pinned by test_useful_number_errors) - known finding LA1. Whatever the lexer does, glued and spaced
+    texts must never give DIFFERENT token lists."""
+    from corr import C01_parse as PP
     for _ in range(ctx.n(200, 2000)):
         n = gen_int(rng) if rng.random() < 0.5 else gen_float(rng)
         c = rng.choice([x for x in NAME_START if x not in "eE"])   # e/E start an exponent: decided by the number grammar (O2)
-        text = n + c + rng.choice(["", "1", " ", "b"])
+        tail = rng.choice(["", "1", " ", "b", "_9 x"])
+        glued, spaced = n + c + tail, n + " " + c + tail
         ctx.count()
-        r = real_lex(text)
-        ctx.stat("lookahead:%s" % r[0])
-        if r[0] == "ok":
-            ctx.fail("number-followed-by-name-start-accepted:%s" % classes(n[-1:] + c),
-                     "a number directly followed by a name start character is accepted",
-                     {"part": PART, "kind": "lookahead", "text": cps(text)})
-        elif r[0] == "internal":
-            ctx.fail("internal:%s:%s" % (r[1], classes(text)), "lexer raises %s" % r[1], {"part": PART, "kind": "lex", "text": cps(text)})
+        rg, rs = real_lex(glued), real_lex(spaced)
+        ctx.stat("lookahead:%s" % rg[0])
+        if rg[0] == "internal" or rs[0] != "ok":
+            ctx.fail("internal:%s:%s" % (rg[1], classes(glued)), "lexer misbehaves on a number followed by a name",
+                     {"part": PART, "kind": "lex", "text": cps(glued)})
+        elif rg[0] == "syntax":
+            ctx.fail("number-lookahead:glued-name-rejected",
+                     "a number lexeme directly followed by a name is rejected although the same text with a space is accepted",
+                     {"part": PART, "kind": "glued", "text": cps(n + c), "spaced": cps(n + " " + c)})
+        elif [(x[0], x[3]) for x in rg[1]] != [(x[0], x[3]) for x in rs[1]]:
+            ctx.fail("number-name-glued-tokens-differ:%s" % classes(n[-1:] + c),
+                     "a number directly followed by a name lexes to other tokens than with a space in between",
+                     {"part": PART, "kind": "glued", "text": cps(glued), "spaced": cps(spaced)})
+    for entry, glued, spaced in GLUED_PARSE_CASES:
+        ctx.count()
+        a, b = PP.real_parse(glued, entry, dict(FLAG0, no_location=True)), PP.real_parse(spaced, entry, dict(FLAG0, no_location=True))
+        if a[0].startswith("internal") or b[0] != "ok":
+            ctx.fail("internal:%s:glued-parse" % a[0], "parser misbehaves on a number followed by a name",
+                     {"part": PART, "kind": "glued_parse", "text": cps(glued), "spaced": cps(spaced), "entry": entry})
+        elif a[0] == "syntax":
+            ctx.fail("number-lookahead:glued-name-rejected:parse",
+                     "a text with a number directly followed by a name is rejected although it derives from the June-2018 grammar",
+                     {"part": PART, "kind": "glued_parse", "text": cps(glued), "spaced": cps(spaced), "entry": entry})
+        elif a[1].to_dict() != b[1].to_dict():
+            ctx.fail("number-name-glued-tree-differs:%s" % entry, "glued and spaced texts parse to different trees",
+                     {"part": PART, "kind": "glued_parse", "text": cps(glued), "spaced": cps(spaced), "entry": entry})
 
 
 def real_loc(body, pos):
@@ -1154,6 +1180,14 @@ def replay(ctx, data):
         ctx.model_ok = ctx.driver.available()
         parse_text_cases(ctx, [(text, inp.get("entry", "document"), inp.get("flags") or FLAG0, None)], "replay")
         return not [f for f in ctx.found[before:] if f["kind"] == "property"]
+    if kind == "glued":
+        rs = real_lex(from_cps(inp.get("spaced", [])))
+        return r[0] == "ok" and rs[0] == "ok" and [(x[0], x[3]) for x in r[1]] == [(x[0], x[3]) for x in rs[1]]
+    if kind == "glued_parse":
+        from corr import C01_parse as PP
+        fl = dict(FLAG0, no_location=True)
+        a, b = PP.real_parse(text, inp["entry"], fl), PP.real_parse(from_cps(inp.get("spaced", [])), inp["entry"], fl)
+        return a[0] == "ok" and b[0] == "ok" and a[1].to_dict() == b[1].to_dict()
     if kind in ("lookahead", "reject"):
         return r[0] == "syntax"
     if kind == "loc":
